@@ -22,6 +22,7 @@ fixed=[
 ("C11","4995b55","sample() with n_bootstraps=1 ignored NaN / wrong-length y and weights"),
 ("C11","1f61752","PoissonGAM.fit(list y): AttributeError"),
 ("C11","293fa99","gridsearch on an unfitted model with list X: AttributeError; X used before validation"),
+("C16","8d98a70","te(f(a), f(b), by=k) (all marginals of order 0): build_columns raised UFuncTypeError (int basis *= float by) instead of multiplying the rows by the by-variable"),
 ("C19","6a443b0","PoissonGAM.gridsearch with exposure/weights != 1: GAM.gridsearch passed weights positionally, PoissonGAM.fit took them as exposure (rates divided twice, candidates unweighted)"),
 ("C10","6a443b0","gridsearch candidate scores of a PoissonGAM with weights differed from an independent fit with those hyper-parameters (same positional-argument defect)"),
 ("C11","c2e8abf","fit_quantile on a fitted model returned without validating y when already within tol"),
